@@ -92,6 +92,8 @@ class Model:
         nteam = cfg["nTeam"]
         for j in range(1, nteam + 1):
             self.teams.append(BaseTeam("team%d" % j, ID="".join(["M", "%d" % j])))
+        for j in range(2, nteam + 1):
+            self.teams[j - 1].set_parent_team(self.teams[0])      # organisational tree (not simulated)
         for i, f in enumerate(cfg["facs"], 1):
             fac = BaseFacility(
                 "f%d" % i,
@@ -115,6 +117,8 @@ class Model:
         for j, w in enumerate(cfg["wps"], 1):
             for src in w["inputs"]:
                 self.wps[j - 1].append_input_workplace(self.wps[src - 1])
+        for j in range(2, len(self.wps) + 1):
+            self.wps[j - 1].set_parent_workplace(self.wps[0])
         for i, w in enumerate(cfg["workers"], 1):
             wk = BaseWorker(
                 "w%d" % i,
